@@ -292,6 +292,19 @@ func runGatedTransform(t *testing.T, c qgCase) (coq string, flags map[string]boo
 			final = "(Some " + coqBool(lastOK) + ")"
 		}
 
+		if c.Quiet {
+			// C06: after the undisturbed cycles the item is converged; a cycle may legitimately end with the phase
+			// conflict error while a foreign finalizer holds a torn-down output
+			var lerr error
+			if !lastOK {
+				if o := get("O"); o == nil || o.Metadata().Phase() != resource.PhaseTearingDown || o.Metadata().Finalizers().Empty() {
+					lerr = errors.New("the last undisturbed cycle ended with an error")
+				}
+			}
+
+			problem = checkItemConverged(get("T"), get("O"), !inPass, lerr)
+		}
+
 		ins, err1 := coqListOf(ctx, st, "n1", "T", t0)
 		outs, err2 := coqListOf(ctx, st, "n1", "O", t0)
 
@@ -329,17 +342,19 @@ func runGatedTransform(t *testing.T, c qgCase) (coq string, flags map[string]boo
 	return coq, flags, problem
 }
 
-func gatedTransformPhase(t *testing.T) func(rep *Report, dir string) {
+func gatedTransformPhase(t *testing.T, prop string) func(rep *Report, dir string) {
 	return func(rep *Report, dir string) {
-		r := newRng(seed(), "C07transform")
-		f := newCoqFile("C07_transform_cases", []string{"Store", "Helpers", "DepDB", "Access", "GenCtl", "GenCtlCheck", "Transform", "TransformCheck"}, "tcase", "transform_mismatches")
+		r := newRng(seed(), prop+"transform")
+		f := newCoqFile(prop+"_transform_cases", []string{"Store", "Helpers", "DepDB", "Access", "GenCtl", "GenCtlCheck", "Transform", "TransformCheck"}, "tcase", "transform_mismatches")
 
 		var jl []any
 
 		var todo []qgCase
 
-		for _, c := range gapCorpus(false) {
-			if c.Mode == "plain" {
+		quiet := prop == "C06"
+
+		for _, c := range gapCorpus(quiet) {
+			if c.Mode == "plain" && !quiet {
 				// a transform cycle makes up to 5 calls: give the canonical life cycle enough steps
 				var sched []qgChoice
 
@@ -356,16 +371,34 @@ func gatedTransformPhase(t *testing.T) func(rep *Report, dir string) {
 
 		for range tier(300, 6000) {
 			c := genGatedQ(r)
+			if quiet {
+				c = genQuietQ(r)
+			}
+
 			c.Mode = "plain"
 			todo = append(todo, c)
+		}
+
+		if quiet {
+			// let the cycle in flight finish, then two more undisturbed cycles (the first may have to remove a stale generation)
+			for i := range todo {
+				for range 2 {
+					todo[i].Sched = append(todo[i].Sched, qgChoice{Kind: "step"}, qgChoice{Kind: "step"}, qgChoice{Kind: "restart"})
+					for range 7 {
+						todo[i].Sched = append(todo[i].Sched, qgChoice{Kind: "step"})
+					}
+				}
+			}
 		}
 
 		for _, c := range todo {
 			coq, flags, problem := runGatedTransform(t, c)
 			if problem != "" {
-				rep.violateKey(len(jl), "gated-transform:"+strings.SplitN(problem, " ", 3)[1], problem, map[string]any{"transform": c})
+				rep.violateKey(len(jl), "gated-transform:"+strings.SplitN(problem+"  ", " ", 3)[1], problem, map[string]any{"transform": c})
 
-				continue
+				if coq == "" {
+					continue
+				}
 			}
 
 			f.add(coq)
